@@ -12,6 +12,7 @@ type Clause struct {
 	Label string
 	Props []string // nil: inherit from function
 	Uses  []string // nil: every assumption; else only the named invariants / callee postconditions (plus preconditions)
+	InitUses []string // extra assumptions for establishing a loop invariant
 	E     Expr
 	Src   string
 }
@@ -219,6 +220,17 @@ func parseContractFile(path, pkg string) (*ContractFile, error) {
 				return nil, fail(fmt.Errorf("assert needs a label"))
 			}
 			r2 := rest[len(m[0]):]
+			var uses []string
+			if strings.HasPrefix(r2, "uses(") {
+				j := strings.Index(r2, ")")
+				uses = []string{}
+				for _, u := range strings.Split(r2[5:j], ",") {
+					if u = strings.TrimSpace(u); u != "" {
+						uses = append(uses, u)
+					}
+				}
+				r2 = strings.TrimSpace(r2[j+1:])
+			}
 			re := regexp.MustCompile(`^(after|before)\s+call\s+(\S+?)#(\d+)\s*:\s*(.*)$`)
 			mm := re.FindStringSubmatch(r2)
 			if mm == nil {
@@ -229,7 +241,7 @@ func parseContractFile(path, pkg string) (*ContractFile, error) {
 				return nil, fail(err)
 			}
 			k, _ := strconv.Atoi(mm[3])
-			as := AssertSpec{Clause: Clause{Label: m[1], E: e, Src: mm[4]}, After: mm[1] == "after", Callee: mm[2], K: k}
+			as := AssertSpec{Clause: Clause{Label: m[1], E: e, Src: mm[4], Uses: uses}, After: mm[1] == "after", Callee: mm[2], K: k}
 			if m[2] != "" {
 				as.Props = strings.Fields(strings.NewReplacer("{", "", "}", "", ",", " ").Replace(m[2]))
 			}
@@ -326,6 +338,18 @@ func parseClause(s string) (Clause, error) {
 		for _, u := range strings.Split(s[5:j], ",") {
 			if u = strings.TrimSpace(u); u != "" {
 				cl.Uses = append(cl.Uses, u)
+			}
+		}
+		s = strings.TrimSpace(s[j+1:])
+	}
+	if strings.HasPrefix(s, "init(") {
+		j := strings.Index(s, ")")
+		if j < 0 {
+			return cl, fmt.Errorf("unterminated init(")
+		}
+		for _, u := range strings.Split(s[5:j], ",") {
+			if u = strings.TrimSpace(u); u != "" {
+				cl.InitUses = append(cl.InitUses, u)
 			}
 		}
 		s = strings.TrimSpace(s[j+1:])
